@@ -91,4 +91,24 @@ theorem callFunction_line (orc : Oracle) (m : PM) (f : Frame) (rest : List Frame
     | (dsimp only; split <;> first | exact lineOk_reject _ _ _ _ | (intro _; exact ⟨_, _, rfl, by simp⟩))
     | (intro h; simp at h))
 
+/-- the current option (if any) is not a deprecated one awaiting its diagnostic -/
+def noPendingDeprecated (f : Frame) : Prop :=
+  ∀ r o, f.opt = some r → f.cfg.getOpt r = some o → o.flags.deprecated = false
+
+theorem handleDeprecated_id (m : PM) (f : Frame) (h : noPendingDeprecated f) : handleDeprecated m f = (m, f) := by
+  unfold handleDeprecated
+  split
+  · rename_i r hr
+    split
+    · rename_i o ho
+      simp [h r o hr ho]
+    · rfl
+  · rfl
+
+
+theorem getOpt_setLine (c : Cfg) (n : Nat) (r : OptRef) : (c.setLine n).getOpt r = c.getOpt r := by
+  obtain ⟨i, o⟩ := c
+  obtain ⟨steps, leaf⟩ := r
+  cases steps <;> rfl
+
 end Confuse
